@@ -720,7 +720,7 @@ struct V : RecursiveASTVisitor<V> {
         v["keys"] = D.keysOfDecl(VD);
         v["member"] = VD->isStaticDataMember();
         // initialiser of a variable selected like a function (funcs= option): tables such as generator::keywords
-        if (!D.O.funcs.empty() && wanted(D.qname(VD)))
+        if ((!D.O.funcs.empty() && wanted(D.qname(VD))) || VD->isStaticLocal())
             if (const Expr* init = VD->getAnyInitializer())
                 v["init"] = D.node(init);
         vars.push_back(std::move(v));
